@@ -52,6 +52,13 @@ var graphs = []graphSpec{
 	{Name: "diamond", N: 4, Edges: [][2]int{{0, 1}, {0, 2}, {1, 3}, {2, 3}}},
 	{Name: "two-chains", N: 4, Edges: [][2]int{{0, 1}, {2, 3}}},
 	{Name: "tri", N: 3, Edges: [][2]int{{0, 1}, {0, 2}, {1, 2}}},
+	// fan-in of three: a dependant must wait for ALL of its dependencies, whatever their completion order
+	{Name: "join3", N: 4, Edges: [][2]int{{0, 3}, {1, 3}, {2, 3}}},
+	// more ready targets than workers: callers park inside the pool's queue
+	{Name: "indep3", N: 3},
+	{Name: "indep4", N: 4},
+	// diamond with a tail below a (possibly failing) root: every descendant must be cancelled exactly once
+	{Name: "diamond-tail", N: 5, Edges: [][2]int{{0, 1}, {0, 2}, {1, 3}, {2, 3}, {3, 4}}},
 }
 
 type scenario struct {
@@ -459,7 +466,7 @@ func scenarios(prop string, thorough bool) []scenario {
 					continue
 				}
 				for _, w := range []int{1, 2} {
-					if w == 1 && !(g.Name == "fork" || g.Name == "two-chains" || g.Name == "join") {
+					if w == 1 && !(g.Name == "fork" || g.Name == "two-chains" || g.Name == "join" || g.Name == "indep3" || g.Name == "indep4" || g.Name == "join3") {
 						continue
 					}
 					switch prop {
